@@ -23,6 +23,30 @@ CHECKS = {
              "numerical value of the error. Labels/grain names are assumed non-negative."),
 }
 
+CHECKS["C13"] = dict(
+    category="other", design_ref="DESIGN.md section 3 / C13",
+    technique="OpenMP data-sharing / partition discipline on the clang AST, symbolic offset-table agreement, "
+              "affine write-coverage analysis",
+    text="Static: (R1) every OpenMP construct of localmaxlabel.c is race-free (work-shared loops write injective affine "
+         "cells; the hand-partitioned walk stage reads only cells no thread writes - predicate-partitioned access), which "
+         "decides 'identical for any number of threads'; (R2) the direction codes stored by neighbormax and the offsets "
+         "o[] used to follow them denote the same neighbour; (R3) the work buffer is completely overwritten before it is "
+         "read and labels are only copied from finished pixels, i.e. no dependence on previous buffer content; (R4) "
+         "sparse variants single threaded.",
+    note=TRUST + "Assumes image shape >= 3x3 and untorn byte/word stores. Not decided: that following the largest "
+         "neighbour is steepest ascent on every image, dense/sparse partition equality.")
+CHECKS["C19"] = dict(
+    category="proof", design_ref="DESIGN.md section 3 / C19",
+    technique="polynomial value numbering (exact rational arithmetic, sin^2+cos^2=1) of the interpreted Python AST; "
+              "ast closure-effect and call-binding rules",
+    text="Proof for all inputs (real arithmetic) that the seven conversion pairs of sinograms/geometry.py are mutual "
+         "inverses in both directions, that the in-beam dty makes lab y vanish, and that the degree/sincos and alias "
+         "forms agree (19 obligations). Structural necessary conditions for the reconstruction clauses: numba clone of "
+         "the in-beam distance equals the geometry function, iradon workers share no written state and are combined in "
+         "order, shift/pad reach run_iradon in the right slots.",
+    note=TRUST + "Floating-point rounding not modelled; ystep != 0. Not decided: 1.5 pixel landing, linearity, "
+         "iradon's internal half-pixel conventions.")
+
 NOT_YET = {}
 
 NOT_APPLICABLE = {
